@@ -598,6 +598,209 @@ fn values_avar(st: &mut Stats) {
     }
 }
 
+// ---------------------------------------------------------------------------------------------
+// hand-written conversions (FromObjRef / FromTableRef impls in write-fonts/src/tables/**): every one
+// gets values with ALL optional fields populated with pairwise distinct contents, so that a field
+// copied / swapped in the conversion is visible after value -> dump_table -> read -> to_owned.
+// ---------------------------------------------------------------------------------------------
+/// A re-read `ValueRecord` carries the table's value format explicitly (`explicit_format: Some(..)`, a
+/// private, writer-computed field like a count); hand-built records get the same explicit format — the
+/// union over the records that share one format field of the table — so that `==` compares like with like.
+fn unify_formats(recs: &mut [&mut wt::gpos::ValueRecord]) {
+    let mut fmt = wt::gpos::ValueFormat::empty();
+    for r in recs.iter() {
+        fmt |= r.format();
+    }
+    for r in recs.iter_mut() {
+        r.set_explicit_value_format(fmt);
+    }
+}
+
+fn values_gpos_value_records(st: &mut Stats) {
+    use wt::gpos::*;
+    use wt::layout::*;
+    let single1 = |c: CoverageTable, mut r: ValueRecord| {
+        unify_formats(&mut [&mut r]);
+        SinglePosFormat1::new(c, r)
+    };
+    let single2 = |c: CoverageTable, mut rs: Vec<ValueRecord>| {
+        unify_formats(&mut rs.iter_mut().collect::<Vec<_>>());
+        SinglePosFormat2::new(c, rs)
+    };
+    let pair1 = |c: CoverageTable, mut sets: Vec<Vec<(u16, ValueRecord, ValueRecord)>>| {
+        unify_formats(&mut sets.iter_mut().flatten().map(|t| &mut t.1).collect::<Vec<_>>());
+        unify_formats(&mut sets.iter_mut().flatten().map(|t| &mut t.2).collect::<Vec<_>>());
+        PairPosFormat1::new(c, sets.into_iter().map(|s| PairSet::new(s.into_iter().map(|(g, a, b)| PairValueRecord::new(gid(g), a, b)).collect())).collect())
+    };
+    let pair2 = |c: CoverageTable, c1: ClassDef, c2: ClassDef, mut rows: Vec<Vec<(ValueRecord, ValueRecord)>>| {
+        unify_formats(&mut rows.iter_mut().flatten().map(|t| &mut t.0).collect::<Vec<_>>());
+        unify_formats(&mut rows.iter_mut().flatten().map(|t| &mut t.1).collect::<Vec<_>>());
+        PairPosFormat2::new(c, c1, c2, rows.into_iter().map(|r| Class1Record::new(r.into_iter().map(|(a, b)| Class2Record::new(a, b)).collect())).collect())
+    };
+    // four pairwise distinct device tables per kind
+    let dev = |k: u16| -> DeviceOrVariationIndex { DeviceOrVariationIndex::Device(Device::new(10 + k, 12 + k, &[k as i8 + 1, -(k as i8) - 2, 3 + k as i8])) };
+    let var = |k: u16| -> DeviceOrVariationIndex { DeviceOrVariationIndex::variation_index(100 + k, 200 + 7 * k) };
+    let cov = |n: u16| CoverageTable::format_1((0..n).map(|i| gid(5 + i)).collect());
+    let mut recs: Vec<(String, ValueRecord)> = vec![];
+    recs.push(("empty".into(), ValueRecord::new()));
+    // each of the eight fields on its own
+    recs.push(("xpl".into(), ValueRecord::new().with_x_placement(-11)));
+    recs.push(("ypl".into(), ValueRecord::new().with_y_placement(22)));
+    recs.push(("xadv".into(), ValueRecord::new().with_x_advance(-33)));
+    recs.push(("yadv".into(), ValueRecord::new().with_y_advance(44)));
+    for (kind, mk) in [("dev", &dev as &dyn Fn(u16) -> DeviceOrVariationIndex), ("var", &var as &dyn Fn(u16) -> DeviceOrVariationIndex)] {
+        recs.push((format!("xpl_{}", kind), ValueRecord::new().with_x_placement_device(mk(1))));
+        recs.push((format!("ypl_{}", kind), ValueRecord::new().with_y_placement_device(mk(2))));
+        recs.push((format!("xadv_{}", kind), ValueRecord::new().with_x_advance_device(mk(3))));
+        recs.push((format!("yadv_{}", kind), ValueRecord::new().with_y_advance_device(mk(4))));
+        // all four device slots, pairwise distinct, with and without the plain values
+        recs.push((format!("all4_{}", kind), ValueRecord::new().with_x_placement_device(mk(1)).with_y_placement_device(mk(2)).with_x_advance_device(mk(3)).with_y_advance_device(mk(4))));
+        recs.push((
+            format!("all8_{}", kind),
+            ValueRecord::new().with_x_placement(1).with_y_placement(-2).with_x_advance(3).with_y_advance(-4).with_x_placement_device(mk(1)).with_y_placement_device(mk(2)).with_x_advance_device(mk(3)).with_y_advance_device(mk(4)),
+        ));
+        // null next to non-null in every adjacent pair
+        recs.push((format!("x_only_{}", kind), ValueRecord::new().with_x_placement(9).with_x_placement_device(mk(1)).with_x_advance_device(mk(3))));
+        recs.push((format!("y_only_{}", kind), ValueRecord::new().with_y_advance(9).with_y_placement_device(mk(2)).with_y_advance_device(mk(4))));
+        recs.push((format!("pl_only_{}", kind), ValueRecord::new().with_x_placement_device(mk(1)).with_y_placement_device(mk(2))));
+        recs.push((format!("adv_only_{}", kind), ValueRecord::new().with_x_advance_device(mk(3)).with_y_advance_device(mk(4))));
+    }
+    // mixed Device / VariationIndex over the four slots
+    recs.push(("mixed".into(), ValueRecord::new().with_x_placement(5).with_x_placement_device(dev(1)).with_y_placement_device(var(2)).with_x_advance_device(var(3)).with_y_advance_device(dev(4))));
+    recs.push(("mixed2".into(), ValueRecord::new().with_y_advance(-5).with_x_placement_device(var(1)).with_y_placement_device(dev(2)).with_x_advance_device(dev(3)).with_y_advance_device(var(4))));
+    let all8 = |k: u16| ValueRecord::new().with_x_placement(1 + k as i16).with_y_placement(-2).with_x_advance(3).with_y_advance(-4).with_x_placement_device(dev(4 * k + 1)).with_y_placement_device(var(4 * k + 2)).with_x_advance_device(dev(4 * k + 3)).with_y_advance_device(var(4 * k + 4));
+    for (name, r) in &recs {
+        // SinglePos format 1 (one shared record) and format 2 (array of records of one format)
+        rt_value(st, &format!("value:SinglePosFormat1:{}", name), &single1(cov(2), r.clone()));
+        rt_value(st, &format!("value:SinglePos.format1:{}", name), &SinglePos::Format1(single1(cov(2), r.clone())));
+        // same shape, different contents
+        let mut r2 = r.clone();
+        if let Some(v) = r2.x_placement.as_mut() {
+            *v += 100;
+        }
+        if let Some(v) = r2.y_advance.as_mut() {
+            *v -= 100;
+        }
+        if r2.y_advance_device.is_some() {
+            r2.y_advance_device = Some(var(77)).into();
+        }
+        if r2.x_placement_device.is_some() {
+            r2.x_placement_device = Some(dev(66)).into();
+        }
+        // records of the EMPTY value format are zero bytes each: the reader's ComputedArray then yields no
+        // elements although value_count = 2 was written (finding, one stable key for both spellings)
+        let k2 = |ty: &str| if name == "empty" { "singlepos2:zero-size-records-dropped".to_string() } else { format!("value:{}:{}", ty, name) };
+        rt_value(st, &k2("SinglePosFormat2"), &single2(cov(2), vec![r.clone(), r2.clone()]));
+        rt_value(st, &k2("SinglePos.format2"), &SinglePos::Format2(single2(cov(2), vec![r2.clone(), r.clone()])));
+        // PairPos format 1: record1 = r, record2 = another shape
+        let other = if name.contains("dev") { all8(3) } else { ValueRecord::new().with_x_advance(-7).with_y_placement_device(dev(9)) };
+        rt_value(st, &format!("value:PairPosFormat1:{}", name), &pair1(cov(1), vec![vec![(30, r.clone(), other.clone()), (31, r2.clone(), other.clone())]]));
+        rt_value(st, &format!("value:PairPosFormat1:swapped:{}", name), &pair1(cov(2), vec![vec![(30, other.clone(), r.clone())], vec![(31, other.clone(), r2.clone()), (32, other.clone(), r.clone())]]));
+        // PairPos format 2: 2 x 2 classes
+        let pp2 = pair2(
+            cov(2),
+            ClassDef::format_1(gid(5), vec![0, 1]),
+            ClassDef::format_1(gid(30), vec![1]),
+            vec![vec![(r2.clone(), other.clone()), (r.clone(), other.clone())], vec![(r2.clone(), other.clone()), (r.clone(), other.clone())]],
+        );
+        rt_value(st, &format!("value:PairPosFormat2:{}", name), &pp2);
+        rt_value(st, &format!("value:PairPos.format2:{}", name), &PairPos::Format2(pp2));
+    }
+    // the same through a whole GPOS table (lookup list, extension-free)
+    let sl = ScriptList::new(vec![ScriptRecord::new(Tag::new(b"DFLT"), Script::new(Some(LangSys::new(vec![0])), vec![]))]);
+    let fl = FeatureList::new(vec![FeatureRecord::new(Tag::new(b"kern"), Feature::new(None, vec![0, 1]))]);
+    let lookups = vec![
+        PositionLookup::Single(Lookup::new(LookupFlag::empty(), vec![SinglePos::Format1(single1(cov(2), all8(0))), SinglePos::Format2(single2(cov(2), vec![all8(1), all8(2)]))])),
+        PositionLookup::Pair(Lookup::new(LookupFlag::empty(), vec![PairPos::Format1(pair1(cov(1), vec![vec![(40, all8(3), all8(4))]]))])),
+    ];
+    rt_value(st, "value:Gpos:value-records-all8", &Gpos::new(sl, fl, PositionLookupList::new(lookups)));
+    // anchors with devices (generated conversion, distinct x / y devices)
+    let anchor = AnchorTable::format_3(10, -20, Some(dev(1)), Some(var(2)));
+    rt_value(st, "value:AnchorTable:f3-distinct-devices", &anchor);
+    rt_value(st, "value:AnchorTable:f3-x-only", &AnchorTable::format_3(10, -20, Some(dev(1)), None));
+    rt_value(st, "value:AnchorTable:f3-y-only", &AnchorTable::format_3(10, -20, None, Some(dev(2))));
+    let mb = MarkBasePosFormat1::new(
+        cov(1),
+        CoverageTable::format_1(vec![gid(50)]),
+        MarkArray::new(vec![MarkRecord::new(0, AnchorTable::format_1(1, 2)), MarkRecord::new(1, AnchorTable::format_2(3, 4, 5))]),
+        BaseArray::new(vec![BaseRecord::new(vec![Some(anchor.clone()), None]), BaseRecord::new(vec![None, Some(AnchorTable::format_1(-9, 9))])]),
+    );
+    rt_value(st, "value:MarkBasePosFormat1", &mb);
+    rt_value(st, "value:CursivePosFormat1", &CursivePosFormat1::new(cov(2), vec![EntryExitRecord::new(Some(AnchorTable::format_1(1, 2)), None), EntryExitRecord::new(None, Some(anchor))]));
+}
+
+fn values_handwritten_conversions(st: &mut Stats) {
+    // meta: Metadata (ScriptLangTags / Other) + DataMapRecord
+    {
+        use wt::meta::*;
+        let tags = |v: &[&str]| Metadata::ScriptLangTags(v.iter().map(|s| ScriptLangTag::new(s.to_string()).unwrap()).collect());
+        let m = Meta::new(vec![
+            DataMapRecord::new(DLNG, tags(&["en-latn", "tr", "Hant-HK"])),
+            DataMapRecord::new(SLNG, tags(&["Latn"])),
+            DataMapRecord::new(Tag::new(b"appl"), Metadata::Other(vec![1, 2, 3, 250, 0])),
+            DataMapRecord::new(Tag::new(b"bild"), Metadata::Other(vec![])),
+        ]);
+        rt_value(st, "value:Meta:all-kinds-distinct", &m);
+        rt_value(st, "value:Meta:empty", &Meta::new(vec![]));
+    }
+    // FeatureParams (Size / StylisticSet / CharacterVariant) behind Feature (read with the feature tag)
+    {
+        use wt::gsub::*;
+        use wt::layout::*;
+        let sl = ScriptList::new(vec![ScriptRecord::new(Tag::new(b"DFLT"), Script::new(Some(LangSys::new(vec![0, 1, 2])), vec![]))]);
+        let size = FeatureParams::Size(SizeParams::new(100, 1, 256, 80, 120));
+        let ss = FeatureParams::StylisticSet(StylisticSetParams::new(NameId::new(257)));
+        let cv = FeatureParams::CharacterVariant(CharacterVariantParams::new(NameId::new(258), NameId::new(259), NameId::new(260), 2, NameId::new(261), vec![Uint24::new(0x41), Uint24::new(0x1F600)]));
+        let fl = FeatureList::new(vec![
+            FeatureRecord::new(Tag::new(b"cv01"), Feature::new(Some(cv), vec![0])),
+            FeatureRecord::new(Tag::new(b"size"), Feature::new(Some(size), vec![])),
+            FeatureRecord::new(Tag::new(b"ss01"), Feature::new(Some(ss), vec![0])),
+        ]);
+        let ll = SubstitutionLookupList::new(vec![SubstitutionLookup::Single(Lookup::new(LookupFlag::empty(), vec![SingleSubst::format_1(CoverageTable::format_1(vec![gid(5)]), 3)]))]);
+        rt_value(st, "value:Gsub:feature-params-size+ss+cv", &Gsub::new(sl, fl, ll));
+    }
+    // glyf: SimpleGlyph / CompositeGlyph / Glyph
+    {
+        use wt::glyf::*;
+        let mut path = kurbo::BezPath::new();
+        path.move_to((10.0, -20.0));
+        path.line_to((300.0, 15.0));
+        path.quad_to((350.0, 400.0), (120.0, 500.0));
+        path.line_to((-30.0, 250.0));
+        path.close_path();
+        path.move_to((100.0, 100.0));
+        path.line_to((150.0, 110.0));
+        path.line_to((140.0, 160.0));
+        path.close_path();
+        if let Ok(mut g) = SimpleGlyph::from_bezpath(&path) {
+            rt_value(st, "value:SimpleGlyph:two-contours", &g);
+            g.instructions = vec![0xb0, 0x01, 0x2d, 0xff];
+            rt_value(st, "value:SimpleGlyph:instructions", &g);
+            rt_value(st, "value:Glyph:simple", &Glyph::Simple(g));
+        }
+        let t = |a: f32, b: f32, c: f32, d: f32| Transform { xx: F2Dot14::from_f32(a), yx: F2Dot14::from_f32(b), xy: F2Dot14::from_f32(c), yy: F2Dot14::from_f32(d) };
+        let fl = |r: bool, m: bool, s: bool, u: bool, o: bool| ComponentFlags { round_xy_to_grid: r, use_my_metrics: m, scaled_component_offset: s, unscaled_component_offset: u, overlap_compound: o };
+        let comps = vec![
+            Component::new(gid(7), Anchor::Offset { x: -300, y: 5 }, t(1.0, 0.0, 0.0, 1.0), fl(true, false, false, false, false)),
+            Component::new(gid(8), Anchor::Offset { x: 4, y: -4 }, t(0.5, 0.0, 0.0, 0.5), fl(false, true, false, false, false)),
+            Component::new(gid(9), Anchor::Point { base: 3, component: 300 }, t(0.5, 0.0, 0.0, -0.75), fl(false, false, true, false, false)),
+            Component::new(gid(10), Anchor::Point { base: 1, component: 2 }, t(0.25, 0.5, -0.5, 1.25), fl(false, false, false, true, true)),
+        ];
+        let bbox = Bbox { x_min: -1, y_min: -2, x_max: 3, y_max: 4 };
+        for n in 1..=comps.len() {
+            let mut cg = CompositeGlyph::new(comps[0].clone(), bbox);
+            for c in &comps[1..n] {
+                cg.add_component(c.clone(), Bbox { x_min: -10, y_min: -20, x_max: 30, y_max: 40 });
+            }
+            rt_value(st, &format!("value:CompositeGlyph:{}-components", n), &cg);
+            rt_value(st, &format!("value:Glyph:composite:{}", n), &Glyph::Composite(cg));
+        }
+        for (k, c) in comps.iter().enumerate() {
+            rt_value(st, &format!("value:CompositeGlyph:single#{}", k), &CompositeGlyph::new(c.clone(), bbox));
+        }
+    }
+}
+
 fn values_misc(st: &mut Stats, rng: &mut Rng) {
     // maxp 0.5 / 1.0
     {
@@ -1112,6 +1315,8 @@ fn main() {
     values_colr(&mut st);
     values_avar(&mut st);
     values_misc(&mut st, &mut rng);
+    values_gpos_value_records(&mut st);
+    values_handwritten_conversions(&mut st);
     shards(&mut st, &mut cw, &mut rng, thorough);
     let shards = cw.finish();
     let _ = &mut cw;
